@@ -328,6 +328,191 @@ fn run_k(c: &HCircuit, k0: u32, inst: Vec<F>, plan: Vec<(u64, Fault, Mode)>, kee
     }
 }
 
+/// A library of several automata in one chip (`AutomatonChip::configure` with n entries): all of
+/// them share one lookup table, each with its own range of states. Checked for every member:
+/// accepted words (with the reference markers) are satisfiable, rejected words are not; and once
+/// per library the table laid out in the circuit must be a DISJOINT union of the members'
+/// automata (each shifted by some offset, no state 0, no two members sharing a state) plus the
+/// dummy row - otherwise a run of one member could continue with another member's rows.
+fn library_case(es: &Vec<RefExpr>) -> CaseOut {
+    let mut out = CaseOut::batch();
+    let name = es.iter().map(|e| e.show()).collect::<Vec<_>>().join(" | ");
+    let mut auts = vec![];
+    for e in es {
+        let (Ok(r), Ok(i)) = (RefAut::build(e), compile(e)) else {
+            out.count("skipped:member-does-not-compile", 1);
+            return out;
+        };
+        auts.push((r, i));
+    }
+    let rows: usize = auts.iter().map(|(_, i)| i.n_trans + i.n_finals).sum::<usize>() + 1;
+    let k0 = circ::k_for(rows, 16, false);
+    let mut table_checked = false;
+    for (which, (r, i)) in auts.iter().enumerate() {
+        let p = explore(i, r, true);
+        if p.mismatch.is_some() {
+            out.count("skipped:automaton-mismatch(reported by the product check)", 1);
+            continue;
+        }
+        let mut w = product::words_from(&p, r, 12, &[]);
+        w.accepted.sort_by_key(|x| (x.0.len(), x.0.clone()));
+        w.accepted.dedup();
+        w.accepted.truncate(4);
+        w.rejected.sort_by_key(|x| (x.len(), x.clone()));
+        w.rejected.dedup();
+        w.rejected.truncate(6);
+        // words accepted by ANOTHER member and rejected by this one
+        for (j, (rj, ij)) in auts.iter().enumerate() {
+            if j == which {
+                continue;
+            }
+            let pj = explore(ij, rj, true);
+            if pj.mismatch.is_some() {
+                continue;
+            }
+            for (word, _) in product::words_from(&pj, rj, 12, &[]).accepted.into_iter().take(6) {
+                if r.run(&word).is_none() && !w.rejected.contains(&word) {
+                    w.rejected.push(word);
+                }
+            }
+        }
+        let detail = |word: &[u8]| json!({"library": name, "member": which, "word_bytes": word, "word": show_word(word)});
+        for (word, markers) in &w.accepted {
+            let circuit = HCircuit { spec: ASpec::Multi(es.clone(), which), job: Job::Parse(word.clone()) };
+            let run = run_k(&circuit, k0, statement(word, markers), vec![], true);
+            out.eval(&format!("library:accepted-word:{}", run.outcome.name()), true);
+            out.counter("traces_validated", 1);
+            if !run.outcome.is_sat() {
+                out.viol(Viol::new(
+                    format!("library:{}:accepted-word-not-satisfiable", run.outcome.name()),
+                    format!("library [{name}], member {which}: the accepted word {} with its reference markers is not satisfiable ({:?})", show_word(word), run.outcome),
+                    detail(word),
+                ));
+                continue;
+            }
+            if !table_checked {
+                if let Some(t) = run.prover.as_ref().and_then(circ::automaton_table) {
+                    table_checked = true;
+                    match disjoint_union_offsets(&t, &auts.iter().map(|(_, i)| i).collect::<Vec<_>>()) {
+                        Ok(offs) => {
+                            out.eval("library:table-is-disjoint-union", true);
+                            out.sample = Some(json!({"library": name, "offsets": offs, "table_rows": t.len()}));
+                        }
+                        Err(why) => {
+                            out.eval("library:table-NOT-disjoint-union", true);
+                            out.viol(Viol::new(
+                                "library:lookup-table-not-a-disjoint-union-of-the-members",
+                                format!("library [{name}] ({} members): {why}", es.len()),
+                                json!({"library": name, "members": es.len()}),
+                            ));
+                        }
+                    }
+                }
+            }
+        }
+        for word in &w.rejected {
+            let circuit = HCircuit { spec: ASpec::Multi(es.clone(), which), job: Job::Parse(word.clone()) };
+            let mut run = run_k(&circuit, k0, statement(word, &vec![0; word.len()]), vec![], true);
+            out.counter("traces_validated", 1);
+            let mut outcome = run.outcome.clone();
+            if let (Some(prover), true) = (run.prover.as_mut(), run.observed.len() == word.len()) {
+                let obs: Vec<F> = run.observed.iter().map(|o| o.unwrap_or(F::ZERO)).collect();
+                for (j, v) in obs.iter().enumerate() {
+                    prover.instance_mut()[1][word.len() + j] = InstanceValue::Assigned(*v);
+                }
+                outcome = match catch(|| prover.verify()) {
+                    Ok(Ok(())) => Outcome::Sat,
+                    Ok(Err(_)) => Outcome::Unsat("final-state / transition lookup".into()),
+                    Err(p) => Outcome::Panic(p),
+                };
+            }
+            out.eval(&format!("library:rejected-word:{}", outcome.name()), true);
+            if outcome.is_sat() {
+                out.viol(Viol::new(
+                    "library:rejected-word-satisfiable",
+                    format!("library [{name}], member {which}: the word {} is rejected by the reference but the circuit is satisfied", show_word(word)),
+                    detail(word),
+                ));
+            }
+        }
+    }
+    if !table_checked {
+        out.count("library:table-not-checked(no accepted word / table not readable)", 1);
+    }
+    out
+}
+
+/// Finds offsets o_i such that `table` = {(0,0,0,0)} + the union over i of member i with every
+/// state shifted by o_i (sentinel rows (f + o_i, 256, 0, 0) for the final states), the state
+/// ranges [o_i, o_i + n_i) pairwise disjoint and not containing 0. Exhaustive over all offsets
+/// up to the largest state of the table (the members are small).
+fn disjoint_union_offsets(table: &BTreeSet<[u64; 4]>, members: &[&ImplAut]) -> Result<Vec<u64>, String> {
+    if !table.contains(&[0, 0, 0, 0]) {
+        return Err("the dummy row (0, 0, 0, 0) is missing".into());
+    }
+    let max_state = table.iter().map(|r| r[0].max(r[2])).max().unwrap_or(0);
+    let rows_of = |i: &ImplAut, o: u64| -> BTreeSet<[u64; 4]> {
+        let mut s = BTreeSet::new();
+        for ((a, b), (t, m)) in &i.sorted_trans {
+            s.insert([*a as u64 + o, *b as u64, *t as u64 + o, *m as u64]);
+        }
+        for f in &i.sorted_finals {
+            s.insert([*f as u64 + o, 256, 0, 0]);
+        }
+        s
+    };
+    // states a member really uses (a member without transitions and final states uses none)
+    let used = |i: &ImplAut| -> BTreeSet<u64> {
+        let mut s = BTreeSet::new();
+        for ((a, _), (t, _)) in &i.sorted_trans {
+            s.insert(*a as u64);
+            s.insert(*t as u64);
+        }
+        for f in &i.sorted_finals {
+            s.insert(*f as u64);
+        }
+        s
+    };
+    let cands: Vec<Vec<u64>> = members.iter().map(|i| (1..=max_state.max(1)).filter(|o| rows_of(i, *o).is_subset(table)).collect()).collect();
+    for (j, c) in cands.iter().enumerate() {
+        if c.is_empty() {
+            return Err(format!("no offset places member {j} inside the table (its transitions are not all present)"));
+        }
+    }
+    // depth-first search over the candidate offsets
+    fn go(j: usize, cands: &[Vec<u64>], chosen: &mut Vec<u64>, ok: &dyn Fn(&[u64]) -> bool) -> bool {
+        if j == cands.len() {
+            return ok(chosen);
+        }
+        for o in &cands[j] {
+            chosen.push(*o);
+            if go(j + 1, cands, chosen, ok) {
+                return true;
+            }
+            chosen.pop();
+        }
+        false
+    }
+    let ok = |offs: &[u64]| -> bool {
+        let mut all: BTreeSet<[u64; 4]> = BTreeSet::from([[0, 0, 0, 0]]);
+        let mut states: BTreeSet<u64> = BTreeSet::new();
+        let mut n_states = 0usize;
+        for (i, o) in members.iter().zip(offs) {
+            all.extend(rows_of(i, *o));
+            let u: BTreeSet<u64> = used(i).into_iter().map(|s| s + *o).collect();
+            n_states += u.len();
+            states.extend(u);
+        }
+        all == *table && states.len() == n_states && !states.contains(&0)
+    };
+    let mut chosen = vec![];
+    if go(0, &cands, &mut chosen, &ok) {
+        Ok(chosen)
+    } else {
+        Err(format!("every member can be found in the table (candidate offsets {cands:?}) but no choice of offsets makes the table their disjoint union: members share states or the table has extra rows"))
+    }
+}
+
 fn conformance(c: &Conf) -> CaseOut {
     let mut out = CaseOut::batch();
     let e = &c.e;
@@ -1132,6 +1317,40 @@ fn main() {
         confs.clear();
     }
     cx.run_cases("parse", &confs, conformance);
+
+    // ---- libraries of 2..5 automata in one chip (the shipped library has one member)
+    {
+        let w = |s: &str| RefExpr::Word(s.as_bytes().to_vec());
+        let members: Vec<RefExpr> = vec![
+            w("ab"),
+            w("cd"),
+            w("ef"),
+            RefExpr::Union(vec![w("a"), w("abc")]),
+            RefExpr::Cat(vec![w("x"), RefExpr::Bytes(vec![b'0', b'1']), w("y")]),
+            w("abcde"),
+            RefExpr::Eps,
+        ];
+        let mut libs: Vec<(String, Vec<RefExpr>)> = vec![];
+        let mut add = |idx: &[usize]| {
+            let l: Vec<RefExpr> = idx.iter().map(|i| members[*i].clone()).collect();
+            libs.push((format!("library{:?}", idx), l));
+        };
+        add(&[0, 1]);
+        add(&[0, 1, 2]);
+        add(&[5, 0, 1]);
+        add(&[0, 5, 1, 2]);
+        add(&[3, 4, 0]);
+        add(&[0, 0, 0]);
+        if tier.is_thorough() {
+            add(&[0, 1, 2, 3, 4]);
+            add(&[4, 3, 2, 1, 0]);
+            add(&[5, 5, 0]);
+            add(&[6, 0, 1]);
+            add(&[0, 6, 1, 6]);
+            add(&[3, 3, 4, 4]);
+        }
+        cx.run_cases("library", &libs, library_case);
+    }
 
     // the shipped Jwt automaton in-circuit: the repository's two accepted documents are too long for
     // the 0..40 window; the minimal one and its corruptions are used in thorough only
